@@ -647,6 +647,58 @@ def rule_constraints_follow_their_quantizer(rep, repo, rule="R12"):
   return n
 
 
+def rule_geometry_from_json(rep, repo, rule="R13"):
+  """model_quantize rebuilds every layer from JSON text, where the tuples of
+  a layer config arrive as LISTS: a quantized layer class built by its own
+  constructor from list-valued geometry options hands its Keras parent the
+  geometry it hands it for the tuple spelling."""
+  from .c13 import layer_pe, exported_classes
+  from ..pe import ClassRef
+  n = 0
+  skipped = {}
+
+  def norm(v):
+    if isinstance(v, (list, tuple)):
+      return tuple(norm(e) for e in v)
+    return v
+  for name, ci in sorted(exported_classes(repo).items()):
+    params = [p for p, _ in ci.init_params()[0]]
+    rank = 1 if "1D" in name else 2
+    geo = {}
+    for p_, v_ in (("kernel_size", 3), ("strides", 1), ("dilation_rate", 2),
+                   ("pool_size", 2)):
+      if p_ in params:
+        geo[p_] = (v_,) * rank
+    if not geo:
+      continue
+    fixed = {p_: v_ for p_, v_ in (("units", 4), ("filters", 8))
+             if p_ in params}
+    unit = "%s::%s.__init__" % (ci.module.relpath, name)
+    got = {}
+    try:
+      for spelling, conv in (("tuples", tuple), ("lists", list)):
+        pe = layer_pe(repo, ci, name)
+        layer = pe.call(ClassRef(ci), [], dict(
+            fixed, **{k: conv(v) for k, v in geo.items()}))
+        base = layer.attrs.get("__base_config__", {})
+        got[spelling] = {k: norm(base.get(k, layer.attrs.get(k)))
+                         for k in geo}
+    except (PyRaise, Unsupported) as e:
+      skipped[name] = str(e)[:100]
+      continue
+    rep.unit(unit)
+    n += 1
+    diff = sorted("%s: %r from tuples, %r from lists" % (
+        k, got["tuples"][k], got["lists"][k]) for k in geo
+                  if got["tuples"][k] != got["lists"][k])
+    rep.check(not diff, rule, unit, "geometry-lost-through-json",
+              "%s built from list-valued options (as a config read back from "
+              "JSON has them) hands its parent another geometry: %s" % (
+                  name, "; ".join(diff)), loc=ci.loc(), instance=name)
+  rep.extra["json_geometry_not_interpretable"] = skipped
+  return n
+
+
 def run(rep, repo, tier):
   um = repo.module(UM)
   unit = "%s::model_quantize" % um.relpath
@@ -958,6 +1010,9 @@ def run(rep, repo, tier):
   rep.require_instances("R10", 20)
   rule_layers_own_their_quantizers(rep, repo)
   rep.require_instances("R11", 12)
+  if rule_geometry_from_json(rep, repo) < 8:
+    raise AnalysisError("instance-count list-valued geometry: %r" %
+                        rep.extra.get("json_geometry_not_interpretable"))
   rule_constraints_follow_their_quantizer(rep, repo)
   rep.require_instances("R12", 30)
   rep.require_instances("R8", 50)
